@@ -1149,6 +1149,27 @@ class Lib(object):
                 yield b, Raised(cls, ExcObj(cls))
             yield st, SVal(self.spec.uf["dict_of"](to_val(args[0])))
             return
+        if f is dict and len(args) == 1 and kwargs and (isinstance(args[0], SVal) or (isinstance(args[0], Obj) and args[0].kind == "dict")):
+            # dict(mapping, key=value, ...): a NEW dict - the mapping's entries (unknown when the mapping is a dynamic value),
+            # overridden by the keywords
+            self.used.add("dict(mapping, **kw): a new dict holding the mapping's entries overridden by the keywords")
+            src = args[0]
+            if isinstance(src, SVal):
+                for cls in (TypeError, ValueError):
+                    b = st.fork().label("L%d:dict() raises %s" % (ln, cls.__name__))
+                    yield b, Raised(cls, ExcObj(cls))
+                m = fresh("dict(...).map@L%d" % ln, z3.ArraySort(Val, Val))
+                h = fresh("dict(...).has@L%d" % ln, z3.ArraySort(Val, z3.BoolSort()))
+            else:
+                m, h = self.dget(engine, st, src)
+            for k, v in kwargs.items():
+                m = z3.Store(m, to_val(k), to_val(v))
+                h = z3.Store(h, to_val(k), True)
+            o = Obj(dict, "dict(...)@L%d" % ln, "dict", allocated=True)
+            st.heap[(o.oid, "map")] = SArr(m)
+            st.heap[(o.oid, "has")] = SArr(h)
+            yield st, o
+            return
         if isinstance(f, SVal):
             if kwargs:
                 raise Unsupported("keywords in a call of a dynamic value")
